@@ -81,6 +81,7 @@ void run_c07(sim::RunCtx& ctx) {
             Out got = batch_pass(path, mode, t, cfg, threads, "scheduled");
             sim::SchedStats ss = sim::sched_stats();
             sim::sched_end();
+            sim::check_pending_violation();
             SIM_CHECK(got == base, "parallel.differs_from_single_threaded", "%s: num_threads=%d, policy %d, %llu context switches (%llu between fseek and fread, %llu at basic-block ticks): batch sequence/statuses differ from the num_threads=1 run",
                       exec::mode_name(mode), threads, sp.policy, (unsigned long long)ss.switches, (unsigned long long)ss.seek_read_split, (unsigned long long)ss.tick_preemptions);
             if (ss.seek_read_split) SIM_COUNT("probe.seek_read_pair_split_by_switch");
@@ -104,6 +105,7 @@ void run_c07(sim::RunCtx& ctx) {
         sim::sched_join_all();
         sim::SchedStats ss = sim::sched_stats();
         sim::sched_end();
+        sim::check_pending_violation();
         for (int k = 0; k < K; k++) SIM_CHECK(got[(size_t)k] == solo[(size_t)k], "concurrent.differs_from_solo", "reader %d of %d (%s mode) returned different content when used concurrently with the others (policy %d, %llu switches)", k, K, exec::mode_name(plans[(size_t)k].mode), sp.policy, (unsigned long long)ss.switches);
         if (ss.switches) SIM_COUNT("probe.concurrent_readers_interleaved");
         if (ss.tick_preemptions) SIM_COUNT("probe.basic_block_preemption_fired");
